@@ -137,7 +137,7 @@ PROPS = {
     ),
     "C06": dict(
         pkg="c06",
-        variants=[[], ["purego"]],
+        variants=[[], ["purego"], ["GOARCH=386"]],
         quick=T(8, 1.5, 900),
         thorough=T(16, 150, 3400, fuzz=[dict(name="FuzzGenHistories", count=20000)]),
         assumptions=[
@@ -178,7 +178,7 @@ PROPS = {
     ),
     "C20": dict(
         pkg="c20",
-        variants=[[], ["purego"]],
+        variants=[[], ["purego"], ["GOARCH=386"]],
         quick=T(8, 2, 900),
         thorough=T(16, 300, 3400),
         assumptions=[
